@@ -188,12 +188,28 @@ func (s *Scenario) Build() (*Built, error) {
 			// change the message after signing: re-encode a different document
 			alt := strings.Replace(string(doc), `ID="`, `ID="y`, 1)
 			params[0] = q("SAMLRequest", idp.DeflateB64([]byte(alt)))
+		case "malformed-sig-params-both":
+			// both signature parameters arrive in broken form encoding: a lenient parser drops both and sees an unsigned request
+			raw, _ := base64.StdEncoding.DecodeString(sig)
+			raw[0] ^= 0x01
+			s.ExtraQuery = append(s.ExtraQuery, idp.Param{K: "SigAlg", V: url.QueryEscape(sendAlg) + "%zz"}, idp.Param{K: "Signature", V: url.QueryEscape(base64.StdEncoding.EncodeToString(raw)) + "%zz"})
+			sig = ""
+		case "malformed-sig-param", "malformed-sig-param-semicolon":
+			// the Signature parameter is a forged value in broken form encoding; a lenient form parser drops the pair
+			raw, _ := base64.StdEncoding.DecodeString(sig)
+			raw[0] ^= 0x01
+			bad := url.QueryEscape(base64.StdEncoding.EncodeToString(raw)) + "%zz"
+			if s.Mut == "malformed-sig-param-semicolon" {
+				bad = url.QueryEscape(base64.StdEncoding.EncodeToString(raw)) + ";AAAA"
+			}
+			s.ExtraQuery = append(s.ExtraQuery, idp.Param{K: "Signature", V: bad})
+			sig = ""
 		case "strip-sig":
 			sig = ""
 		case "sigalg-only":
 			sig = ""
 		}
-		if s.Mut != "strip-sig" && s.Mut != "sig-only" {
+		if s.Mut != "strip-sig" && s.Mut != "sig-only" && s.Mut != "malformed-sig-params-both" {
 			params = append(params, q("SigAlg", sendAlg))
 		}
 		if sig != "" {
